@@ -346,3 +346,95 @@ class ConditionTransformationApply(Contract):
 
     def frame_ok(self, I, inp, obj, name):
         return isinstance(obj, SObj) and obj.cls == "Cond" and name == "condition"
+
+
+# ----------------------------------------------------------------------------------------------- fields list transformations, placeholder gate
+FLD = "sigma.processing.transformations.fields"
+PLH = "sigma.processing.transformations.placeholder"
+
+
+class _FieldsList(Contract):
+    props = ("C12",)
+    cases = tuple((form, present) for form in ("str", "list2", "list0") for present in (True, False))
+    cls = None
+
+    def setup(self, E):
+        E.summaries[f"{BASE}:Transformation.processing_item_applied"] = lambda I, so, a, k: None
+
+    def args(self, I, case):
+        form, present = case
+        a, b, x, y = "fa", "fb", "keep1", "keep2"
+        fld = {"str": a, "list2": [a, b], "list0": []}[form]
+        before = [x, a, y, b, a] if present else [x, y]
+        rule = SObj(I.E.index.lookup("sigma.rule.rule:SigmaRule"), {"fields": list(before)}, lazy=True)
+        me = SObj(I.E.index.lookup(f"{FLD}:{self.cls}"), {"field": fld}, lazy=True)
+        return {"self": me, "args": [rule], "rule": rule, "before": before, "fld": fld, "case": case}
+
+    def frame_ok(self, I, inp, obj, name):
+        return False
+
+
+@register
+class AddFieldApply(_FieldsList):
+    """AddFieldTransformation.apply: the configured field(s) are appended to the rule's field list, in order; nothing else changes"""
+    id = "C12.AddFieldTransformation.apply"
+    target = f"{FLD}:AddFieldTransformation.apply"
+    cls = "AddFieldTransformation"
+
+    def post(self, I, inp, r):
+        add = [inp["fld"]] if isinstance(inp["fld"], str) else list(inp["fld"])
+        I.ctx.require(inp["rule"].fields["fields"] == inp["before"] + add, "fields == old fields + configured field(s)")
+
+
+@register
+class RemoveFieldApply(_FieldsList):
+    """RemoveFieldTransformation.apply: for each configured field its FIRST occurrence is removed from the rule's field list (a field that
+    is not listed is ignored); the other entries keep their order"""
+    id = "C12.RemoveFieldTransformation.apply"
+    target = f"{FLD}:RemoveFieldTransformation.apply"
+    cls = "RemoveFieldTransformation"
+
+    def post(self, I, inp, r):
+        want = list(inp["before"])
+        for f in ([inp["fld"]] if isinstance(inp["fld"], str) else list(inp["fld"])):
+            if f in want:
+                want.remove(f)
+        I.ctx.require(inp["rule"].fields["fields"] == want, f"fields == old fields without the first occurrence of each configured field: {want}")
+
+
+@register
+class PlaceholderApplyValue(Contract):
+    """BasePlaceholderTransformation.apply_value: a string or regular expression that contains a placeholder this transformation is
+    configured for (include / exclude lists) is replaced through placeholder_replacements_base; every other value is left alone"""
+    id = "C12.BasePlaceholderTransformation.apply_value"
+    target = f"{PLH}:BasePlaceholderTransformation.apply_value"
+    props = ("C12", "C17")
+    cases = tuple((cls, has) for cls in ("SigmaString", "SigmaCasedString", "SigmaRegularExpression", "SigmaNumber", "SigmaNull") for has in (True, False))
+
+    def args(self, I, case):
+        cls, has = case
+        idx = I.E.index
+        asked, repl = [], []
+        out = [SObj("Replaced", {})]
+        inc, exc = SObj("Include", {}), SObj("Exclude", {})
+        val = SObj(idx.lookup(f"sigma.types:{cls}"), {"contains_placeholder": NativeFn("cp", lambda I2, a, k: (asked.append(list(a)), has)[1]),
+                                                     "replace_placeholders": NativeFn("rp", lambda I2, a, k: (repl.append(a[0]), out)[1])}, lazy=True)
+        me = SObj(idx.lookup(f"{PLH}:BasePlaceholderTransformation"), {"include": inc, "exclude": exc}, lazy=True)
+        return {"self": me, "args": [I.fresh("field", "str"), val], "asked": asked, "repl": repl, "out": out, "inc": inc, "exc": exc, "case": case}
+
+    def post(self, I, inp, r):
+        cls, has = inp["case"]
+        c = I.ctx
+        if cls in ("SigmaNumber", "SigmaNull"):
+            c.require(r is None and inp["asked"] == [] and inp["repl"] == [], "other value types are left alone")
+            return
+        c.require(len(inp["asked"]) == 1 and inp["asked"][0][0] is inp["inc"] and inp["asked"][0][1] is inp["exc"], "the value is asked with THIS transformation's include / exclude lists")
+        if has:
+            cb = inp["repl"][0] if inp["repl"] else None
+            c.require(r is inp["out"] and len(inp["repl"]) == 1 and isinstance(cb, BoundMethod) and cb.fn.name == "placeholder_replacements_base" and cb.self_obj is inp["self"],
+                      "replaced through THIS transformation's placeholder_replacements_base (which applies the include / exclude lists per placeholder)")
+        else:
+            c.require(r is None and inp["repl"] == [], "no handled placeholder: left alone")
+
+    def frame_ok(self, I, inp, obj, name):
+        return False
